@@ -45,7 +45,8 @@ CANCEL_CMD = {"slurm": "scancel", "sge": "qdel", "lsf": "bkill"}
 def _case(draw, tier):
     desc = draw(gen.wellformed(max_targets=7, max_files=10, ticks=3, min_targets=2, shapes=(0, 2, 4), spellings=(0, 1, 4, 5, 7)))
     names = [t["name"] for t in desc["targets"]]
-    state = {n: draw(st.sampled_from(["never", "pending", "pending", "running", "running", "completed", "failed"]))
+    # stuck: still in the queue, in a state gwf cannot classify (SGE: pending in error state Eqw; LSF: UNKWN)
+    state = {n: draw(st.sampled_from(["never", "pending", "pending", "running", "running", "completed", "failed", "stuck"]))
              for n in names}
     older = {n: draw(st.sampled_from([False, False, True])) for n in names}
     pats = draw(st.one_of(st.just([]), gen.patterns(names), st.just(["*"])))
@@ -53,7 +54,7 @@ def _case(draw, tier):
             "older": older, "patterns": pats, "force": draw(st.booleans()),
             "answer": draw(st.sampled_from(["y\n", "y\n", "n\n", "\n"])),
             "outputs_exist": draw(st.booleans()),
-            "fault_pos": draw(st.integers(0, 7)), "fault_kind": draw(st.sampled_from(["exit1", "stderr-error", "exit1-plain", "killed"]))}
+            "fault_pos": draw(st.integers(0, 7)), "fault_kind": draw(st.sampled_from(["exit1", "stderr-error", "exit1-plain", "killed", "busy"]))}
 
 
 def strategy(tier):
@@ -124,7 +125,10 @@ def run_case(case):
         # targets of the cone of `wanted` were submitted as well; give everything a state
         for n, j in latest.items():
             want = case["state"][n] if case["state"][n] != "never" else "pending"
-            hist.set_job_state(sim, j, {"pending": "submitted"}.get(want, want))
+            hist.set_job_state(sim, j, {"pending": "submitted", "stuck": "submitted"}.get(want, want))
+            if want == "stuck" and flavour in ("sge", "lsf"):
+                j.code = {"sge": "Eqw", "lsf": "UNKWN"}[flavour]
+                labels.add("job-in-unclassifiable-state")
         if flavour == "slurm":
             for j in sim.submissions():
                 if j.ended:
@@ -139,7 +143,8 @@ def run_case(case):
         k = case["fault_pos"]
         base = sim.counts.get(cmd, 0)
         if k and not declined:
-            sim.faults = [simsched.Fault(cmd, base + k, case["fault_kind"])]
+            # a scheduler that is busy stays busy for the retries of the same request
+            sim.faults = [simsched.Fault(cmd, base + k, case["fault_kind"], sticky=case["fault_kind"] == "busy")]
         log0 = len(sim.log)
         args = ["cancel"] + (["-f"] if case["force"] else []) + pats
         r = proj.gwf(args, input=case["answer"])
